@@ -316,11 +316,12 @@ def mps_case(draw):
     ranges = {r: draw(st.sampled_from(VALS)) for r in draw(st.lists(st.integers(0, nrows - 1), max_size=nrows, unique=True))}
     bounds = {}
     for j in draw(st.lists(st.integers(0, ncols - 1), max_size=ncols, unique=True)):
-        kind = draw(st.sampled_from(["LO", "UP", "LOUP", "FX", "FR", "MI", "MIUP", "PL", "LOPL"]))
+        # two-line kinds in both orders (the lines of a BOUNDS section may come in any order)
+        kind = draw(st.sampled_from(["LO", "UP", "LOUP", "FX", "FR", "MI", "MIUP", "PL", "LOPL", "UPLO", "UPMI", "PLLO"]))
         lo = draw(st.sampled_from([v for v in VALS if abs(v) < 100]))
         up = lo + draw(st.sampled_from([0.5, 1.0, 8.0]))
-        if kind == "UP":
-            up = abs(up) + 0.25              # UP with a negative value and no lower bound is dialect dependent
+        if kind in ("UP", "UPLO", "UPMI"):
+            up = abs(up) + 0.25              # UP with a negative value and no lower bound (yet) is dialect dependent
         bounds[j] = dict(kind=kind, lo=lo, up=up)
     return dict(rnames=rnames, rtypes=rtypes, cnames=cnames, entries=sorted([[j, r, v] for (j, r), v in entries.items()]),
                 rhs=sorted(rhs.items()), ranges=sorted(ranges.items()), bounds=sorted(bounds.items()),
@@ -399,9 +400,13 @@ def render(case):
         for j, b in case["bounds"]:
             cn = case["cnames"][j]
             k = b["kind"]
-            if k in ("LO", "LOUP", "LOPL"):
+            if k in ("UPLO", "UPMI"):
+                out.append(fld("UP", "BND1", cn, num(b["up"])))
+            if k == "PLLO":
+                out.append(fld("PL", "BND1", cn))
+            if k in ("LO", "LOUP", "LOPL", "UPLO", "PLLO"):
                 out.append(fld("LO", "BND1", cn, num(b["lo"])))
-            if k in ("MI", "MIUP"):
+            if k in ("MI", "MIUP", "UPMI"):
                 out.append(fld("MI", "BND1", cn))
             if k in ("UP", "LOUP", "MIUP"):
                 out.append(fld("UP", "BND1", cn, num(b["up"])))
@@ -449,11 +454,11 @@ def expected(case):
         if b is not None:
             k = b["kind"]
             blo, bup = float("%.5E" % b["lo"]), float("%.5E" % b["up"])
-            if k in ("LO", "LOUP", "LOPL"):
+            if k in ("LO", "LOUP", "LOPL", "UPLO", "PLLO"):
                 lo = blo
-            if k in ("MI", "MIUP"):
+            if k in ("MI", "MIUP", "UPMI"):
                 lo = None
-            if k in ("UP", "LOUP", "MIUP"):
+            if k in ("UP", "LOUP", "MIUP", "UPLO", "UPMI"):
                 up = bup
             if k == "FX":
                 lo = up = blo
